@@ -2,7 +2,7 @@
 from .. import scriptprop
 
 ID = "C02"
-GEN = ['Avl.lean', 'AvlShapes.lean']   # regenerated kernels this property's theorems are about (tie 4B)
+GEN = ["Avl.lean", "AvlShapes.lean"]   # regenerated from the source on every run (tie 4B): kernels / call shapes / function shapes
 RULE = ("random add/remove histories (continued on clones of the tree) with the shape (cached heights included) and the comparator-call count observed after every operation, "
         "plus targeted orders: ascending, descending, zig-zag, delete-min repeatedly, delete-root repeatedly, random bulk delete; sizes to 300 quick / 5000 thorough; "
         "non-trivial = at least 8 adds")
